@@ -146,8 +146,12 @@ def clause_agreement(real, forced, model):
     if r["status"] == "accepted":
         impl = {"private": r["private"], "firstprivate": r["firstprivate"], "sync": []}
     elif r["status"] == "generation-error":
-        impl = {"generation-error": True}
-        return (len(model["sync"]) > 0 and "synchronisation" in r["message"]), impl
+        impl = {"generation-error": r["message"][:120]}
+        if "synchronisation" not in r["message"]:
+            # some other lowering failure (e.g. NotImplementedError `b(b(i)) = ...` wrapped by the writer):
+            # no clause lists to compare
+            return True, impl
+        return len(model["sync"]) > 0, impl
     else:
         return True, {"refused-even-with-force": r["message"][:100]}
     mod = {"private": model["private"], "firstprivate": model["firstprivate"], "sync": model["sync"]}
